@@ -167,6 +167,7 @@ type zzEnv struct {
 	vic     string
 	tokens  map[string]string // token -> path (relative to sandbox) of the file holding it
 	used    map[string]bool   // source names under which earlier requests of the attacker were accepted (their work may finish later)
+	noServe bool              // the receiver has no serve directory configured
 }
 
 func (e *zzEnv) do(r *zzReq) (status int, body []byte) {
@@ -311,13 +312,27 @@ func TestZZVerif(t *testing.T) {
 		conf.Keys = []string{"only-key"}
 		env.attKey = "only-key"
 	}
+	if prop == "C14" && (batch/4)%2 == 1 {
+		// a receiver without a serve directory, started from its home directory (the
+		// directory that holds stage/, final/ and logs/): static requests have nothing to serve
+		conf.Dirs.Serve = ""
+		env.noServe = true
+		if err := os.Chdir(env.recv); err != nil {
+			res.Inconclusive++
+			res.InconcNotes = append(res.InconcNotes, "chdir: "+err.Error())
+			return
+		}
+	}
 	nRestarts := 4
 	if tier == "thorough" {
 		nRestarts = 40
 	}
+	if prop == "C15" && (batch/4)%2 == 1 {
+		zzRecPrefix = "site/" // multi-level source names: stored as site--recN on disk
+	}
 	if prop == "C15" && len(conf.Sources) > 0 {
 		for j := 0; j <= nRestarts; j++ {
-			conf.Sources = append(conf.Sources, "rec"+strconv.Itoa(j))
+			conf.Sources = append(conf.Sources, zzRecPrefix+"rec"+strconv.Itoa(j))
 		}
 	}
 	env.sources, env.keys = conf.Sources, conf.Keys
@@ -399,6 +414,7 @@ func TestZZVerif(t *testing.T) {
 	}
 	seedFile(env.att, env.attKey, "own/file1.dat")
 	seedFile(env.vic, vicKey, "secret/plan.dat")
+	env.tokens["content-of-"+env.vic+"-secret/plan.dat"] = "recv/final/" + env.vic + "/secret/plan.dat"
 	// the receiver validates, logs and moves after it has answered: wait until the
 	// seeded files have arrived in the final directory (however loaded the machine is)
 	for k := 0; k < 600; k++ {
@@ -495,7 +511,20 @@ func zzC14(e *zzEnv, rng *rand.Rand, n int, variant int) {
 		field := ""
 		data := []byte(fmt.Sprintf("attack-%d-%d", i, rng.Int63()))
 		sep := []string{"/", "/", "\\", "-", "..", "", "//"}[rng.Intn(7)]
-		switch rng.Intn(10) {
+		kind := rng.Intn(10)
+		if e.noServe && rng.Intn(2) == 0 {
+			kind = 10
+		}
+		switch kind {
+		case 10:
+			// no serve directory is configured: whatever the source name and path, there
+			// is nothing to list, read or delete - in particular not the receiver's own
+			// directories relative to where it was started
+			field = "static.no-serve-dir"
+			s := []string{"final", "stage", "logs", "serve", e.att, e.vic, "final/" + e.vic, "logs/incoming_from"}[rng.Intn(8)]
+			pth := []string{e.vic + "/secret/plan.dat", "", e.vic, "secret/plan.dat", e.vic + "/pub/note.txt", "incoming_from/" + e.vic, e.att + "/own/file1.dat", "pub/note.txt"}[rng.Intn(8)]
+			method := []string{"GET", "GET", "DELETE"}[rng.Intn(3)]
+			r = &zzReq{Route: "static", Method: method, URL: "/static/" + pth, Headers: map[string]string{"X-STS-SrcName": s}}
 		case 0:
 			field = "data.name"
 			r = e.dataReq(src, key, sep, mk("n.dat", frag, where), "", "", data)
@@ -581,6 +610,11 @@ func zzC14(e *zzEnv, rng *rand.Rand, n int, variant int) {
 				e.used = map[string]bool{}
 			}
 			e.used[asSource] = true
+		}
+		// (paths with ".." are redirected by the mux to a cleaned URL outside /static/, which
+		// answers 200 with nothing: only an answer with content counts for those)
+		if e.noServe && r.Route == "static" && st >= 200 && st < 300 && (field == "static.no-serve-dir" || len(body) > 0) {
+			e.viol(i, "nothing-served-without-serve-dir", "static-served-without-serve-dir/"+field, fmt.Sprintf("no serve directory is configured, yet %s %s as source %q was answered %d (%d bytes)", r.Method, r.URL, asSource, st, len(body)), r)
 		}
 		if lk := e.leak(body, asSource); lk != "" {
 			e.viol(i, "no-disclosure", "disclosure/"+field, fmt.Sprintf("%s %s as source %q answered %d with the content of %s", r.Method, r.URL, asSource, st, lk), r)
